@@ -169,7 +169,7 @@ var c05Kinds = []c05Kind{
 		// own Before/After spacing
 		tmpl: func(n int) string {
 			forms := []string{"%s[int, string]", "%s[int]", "%s.x", "%s()", "&%s", "*%s", "-%s", "%s + 1", "(%s)", "%s[1:2]", "%s.(T)", "[]int{%s}", "%s{}",
-				"1: %s", "<-%s", "[2]%s{}", "map[%s]int{}", "func(%s int) {}", "%s[a, b]{}", "struct{ %s int }{}", "interface{ %s() }(nil)", "(chan %s)(nil)", "%s[1:2:3]", "*%s[int, string]{}"}
+				"1: %s", "<-%s", "[2]%s{}", "map[%s]int{}", "func(%s int) {}", "%s[a, b]{}", "struct{ %s int }{}", "interface{ %s() }(nil)", "(chan %s)(nil)", "%s[1:2:3]", "*%s[int, string]{}", "chan %s", "<-chan %s", "[]%s", "map[int]%s", "func(%s)", "*%s", "%s.(T)", "interface{ %s() }", "struct{ %s int }"}
 			s := "package p\n\nvar v = []any{\n"
 			for i, e := range names(n) {
 				s += "\t" + fmt.Sprintf(forms[(i+n*5)%len(forms)], e) + ",\n"
